@@ -546,12 +546,20 @@ func (c *controlConn) awaitSchemaAgreement() error {
 func (c *controlConn) close() {
 	// closing is final whatever the previous state was: a heartBeat goroutine that has not been
 	// scheduled yet must find it and return instead of starting after the session is closed.
-	if atomic.SwapInt32(&c.state, controlConnClosing) == controlConnStarted {
+	started := atomic.SwapInt32(&c.state, controlConnClosing) == controlConnStarted
+
+	// close the connection before waiting for the heartbeat goroutine: it may be waiting for the
+	// answer to its probe on this connection, with Timeout 0 for ever
+	if ch := c.getConn(); ch != nil {
+		ch.conn.Close()
+	}
+
+	if started {
 		c.quit <- struct{}{}
 	}
 
-	ch := c.getConn()
-	if ch != nil {
+	// a reconnect that was under way may have stored another connection meanwhile
+	if ch := c.getConn(); ch != nil {
 		ch.conn.Close()
 	}
 }
